@@ -233,8 +233,16 @@ def run_shard(shard, tier):
     else:
         lib = E.fresh(shard[1])
         mols = SD.molecules_for(shard[1], 'quick')
+        from rdkit import Chem
         for smi in mols[shard[2]::shard[3]]:
             check_elements(R, shard[1], lib, smi)
+            # the same molecule written with every hydrogen inside an atom
+            # bracket ([CH3][CH2][OH]) and with hydrogens as atoms
+            m = Chem.MolFromSmiles(smi)
+            for alt in (Chem.MolToSmiles(m, allHsExplicit=True),
+                        Chem.MolToSmiles(Chem.AddHs(m))):
+                if alt != smi:
+                    check_elements(R, shard[1], lib, alt)
     return R
 
 
